@@ -135,6 +135,35 @@ func verdict(spec gens.JPExpr, data any, got []string, ordered bool) (ok, open b
 	return false, false, exp, kind
 }
 
+// negStartEmptyReading: the path holds a negative-step slice and Get's result
+// is what pathref selects when such a slice selects nothing once its start is
+// at or beyond the end of the array (pathref.Variant.NegStartEmpty).
+func negStartEmptyReading(spec gens.JPExpr, data any, got []string, ordered bool) bool {
+	neg := false
+	for _, f := range spec {
+		if f.K == "slice" {
+			if _, _, sp := gens.SliceParts(f); sp < 0 {
+				neg = true
+			}
+		}
+	}
+	if !neg {
+		return false
+	}
+	for _, v := range pathref.Variants {
+		v.NegStartEmpty = true
+		r := pathref.SelectSpec(spec, data, v)
+		if r.Open {
+			return false
+		}
+		want := hitsList(r.Hits)
+		if sameSeq(got, want) || (!ordered && sameMulti(got, want)) {
+			return true
+		}
+	}
+	return false
+}
+
 // boundClass classifies an index / bound relative to the array length.
 func boundClass(b, n int, omitted bool) string {
 	switch {
@@ -299,11 +328,17 @@ func judge(c *core.Ctx, spec gens.JPExpr, data any, raw func() any) {
 	if len(exp) > 0 {
 		c.Nontrivial()
 	}
+	if !ok && negStartEmptyReading(spec, data, gl, ordered) {
+		// known finding: a negative-step slice whose start lies at or beyond the
+		// end of the array selects nothing. Only results that are exactly what
+		// that reading prescribes for the whole path are keyed here.
+		c.Fail(core.Sig("Get", "negative-step-start-beyond-end-selects-nothing"), mk(), size, strings.Join(exp, " "), strings.Join(gl, " "))
+		return
+	}
 	if !ok {
-		if prev := descAfterMulti(spec); prev != "" {
-			c.Fail(core.Sig("Get", "desc-after-multi", "prev="+prev, kind), mk(), size, strings.Join(exp, " "), strings.Join(gl, " "))
-			return
-		}
+		// (the descent-after-a-multi-valued-fragment defect that used to be keyed
+		// here by path shape is repaired, 9ad8be3: such paths are localised like
+		// every other path)
 		coords, pos := localise(spec, data)
 		c.Fail(core.Sig("Get", coords, "pos="+pos, kind), mk(), size, strings.Join(exp, " "), strings.Join(gl, " "))
 		return
